@@ -15,7 +15,8 @@ def main():
     t0=time.time()
     obs = ex.verify(c)
     print('generated', len(obs), 'obligations in %.2fs'%(time.time()-t0))
-    for r in solve.discharge(ex):
+    inc = solve.Incremental(ex)
+    for r in (inc.check(ob) for ob in ex.obligations):
         print('%-50s %-8s %-8s %.3fs %s' % (r.name, r.status, r.backend, r.seconds, r.reason))
         if r.status=='sat' and r.model is not None:
             from givc.replay import Builder
